@@ -312,7 +312,7 @@ func init() {
 			"transactions; oracle: some commit order consistent with real time and, per transaction, one admissible prefix of it (all commits returned before Begin was called, none called after Begin returned) overlaid with own writes explains every Get. " +
 			"non-trivial: executions in which two transactions overlapped in time, distinct by observed values",
 		Assumptions: txnAssumptions,
-		QuickS:      110, ThoroughS: 1800,
+		QuickS:      180, ThoroughS: 1800,
 	}
 	Props["C06"] = &PropMeta{
 		Units: func(t string) []Unit {
@@ -321,7 +321,7 @@ func init() {
 		Rule: "same executions as C05; oracle: the committed transactions plus all transactions that only read have a serial order respecting real time (a before b when a finished before b began) in which every Get returns what " +
 			"the preceding transactions wrote, decided by a brute-force permutation search and cross-checked on every history with porcupine (one operation per transaction on a key-value map model); the final read-only transaction ties the final state to the witness order",
 		Assumptions: txnAssumptions,
-		QuickS:      110, ThoroughS: 1800,
+		QuickS:      180, ThoroughS: 1800,
 	}
 	Props["C07"] = &PropMeta{
 		Units: func(t string) []Unit {
@@ -331,6 +331,6 @@ func init() {
 			"admissible snapshot that explain the reads, Commit returned the conflict error exactly when a committed transaction after the snapshot and before this commit wrote a key this transaction read from the store; " +
 			"transactions that wrote nothing are never refused; a refused transaction leaves no trace (later reads)",
 		Assumptions: txnAssumptions,
-		QuickS:      110, ThoroughS: 1800,
+		QuickS:      180, ThoroughS: 1800,
 	}
 }
